@@ -17,7 +17,15 @@
 // Oracle, output present and no --force: exit status != 0, stderr carries the refusal
 // ("refusing to overwrite|write"), the whole sandbox tree is identical afterwards (names, bytes,
 // modes, mtimes) and the fs-call log shows no mutating call under the sandbox. With --force, with
-// the output absent and in place: exit status 0 and the output validates (`pdfcpu validate`).
+// the output absent and in place: exit status 0 and the output validates.
+//
+// Tiers. Every form is driven in BOTH tiers with the output absent / present / present + --force /
+// equal to the input / in place (directories: empty / non-empty / non-empty + --force). thorough
+// enumerates the secondary axes (6 kinds of present file, 4 kinds of non-empty directory, 5 path
+// spellings, both --force placements, ./ spelling of the alias, a `pdfcpu validate` child of the STOCK
+// build after every success); quick draws them per form from the seed (plan.go: balanced draws, so that
+// every value of every axis is exercised by about the same number of forms in every run), validates
+// the outputs in-process through pkg/api (same tree under test) and builds the binary once.
 package main
 
 import (
@@ -32,6 +40,7 @@ import (
 	"sync"
 
 	"github.com/pdfcpu/pdfcpu/pkg/api"
+	"github.com/pdfcpu/pdfcpu/pkg/pdfcpu/model"
 	"verif/harness/internal/clirun"
 	"verif/harness/internal/opcat"
 	"verif/harness/internal/vk"
@@ -43,8 +52,9 @@ type env struct {
 	t       *vk.T
 	fx      string // fixtures
 	bin     string // binary used for the monitored runs (shadow build when available)
-	plain   string // stock build (validation runs, help)
+	plain   string // binary for `pdfcpu validate` children and help (thorough: the stock build; quick: = bin, run without VERIF_OSMON)
 	osmon   bool
+	base    map[string]bool // form name + "/" + name kind -> the baseline (output absent / empty directory) succeeded
 	cases   string // directory for per-case sandboxes
 	debug   bool
 	mu      sync.Mutex
@@ -66,7 +76,7 @@ type replayCase struct {
 func main() {
 	vk.Run("C04", "exploration", func(t *vk.T) {
 		api.DisableConfigDir()
-		e := &env{t: t, debug: os.Getenv("C04_DEBUG") != ""}
+		e := &env{t: t, debug: os.Getenv("C04_DEBUG") != "", base: map[string]bool{}}
 		scratch := t.Scratch()
 		e.fx = filepath.Join(scratch, "fx")
 		e.cases = filepath.Join(scratch, "c")
@@ -76,76 +86,97 @@ func main() {
 				t.Broken("mkdir: %v", err)
 			}
 		}
-		if err := opcat.Prepare(vk.RepoDir(), e.fx); err != nil {
-			t.Broken("fixtures: %v", err)
+		// builds and fixtures side by side. thorough: the stock build (validation children, help) and, when
+		// ./check provides the shadow GOROOT, the shadow build (monitored runs). quick: ONE build, the shadow
+		// one when available (run without VERIF_OSMON it is an ordinary binary).
+		stock := filepath.Join(bindir, "pdfcpu")
+		shadow := filepath.Join(bindir, "pdfcpu-osmon")
+		gr := os.Getenv("VERIF_BUILD_GOROOT")
+		var wg sync.WaitGroup
+		var fxErr, stockErr, shadowErr error
+		wg.Add(1)
+		go func() { defer wg.Done(); fxErr = opcat.Prepare(vk.RepoDir(), e.fx) }()
+		if gr != "" {
+			wg.Add(1)
+			go func() { defer wg.Done(); shadowErr = clirun.Build(vk.RepoDir(), shadow, gr) }()
 		}
-		e.plain = filepath.Join(bindir, "pdfcpu")
-		if err := clirun.Build(vk.RepoDir(), e.plain, ""); err != nil {
-			t.Broken("%v", err)
+		needStock := gr == "" || !t.Quick()
+		if needStock {
+			wg.Add(1)
+			go func() { defer wg.Done(); stockErr = clirun.Build(vk.RepoDir(), stock, "") }()
 		}
-		e.bin = e.plain
-		if gr := os.Getenv("VERIF_BUILD_GOROOT"); gr != "" {
-			sh := filepath.Join(bindir, "pdfcpu-osmon")
-			if err := clirun.Build(vk.RepoDir(), sh, gr); err != nil {
-				fmt.Fprintf(os.Stderr, "C04: shadow build failed, running without the fs-call log: %v\n", err)
-				t.Count("osmon_build_failed", 1)
-			} else {
-				e.bin, e.osmon = sh, true
+		wg.Wait()
+		if fxErr != nil {
+			t.Broken("fixtures: %v", fxErr)
+		}
+		if gr != "" && shadowErr != nil && !needStock { // quick: fall back to the stock build
+			needStock = true
+			stockErr = clirun.Build(vk.RepoDir(), stock, "")
+		}
+		if needStock && stockErr != nil {
+			t.Broken("%v", stockErr)
+		}
+		switch {
+		case gr != "" && shadowErr == nil:
+			e.bin, e.osmon = shadow, true
+			e.plain = shadow
+			if needStock {
+				e.plain = stock
 			}
+		default:
+			if gr != "" {
+				fmt.Fprintf(os.Stderr, "C04: shadow build failed, running without the fs-call log: %v\n", shadowErr)
+				t.Count("osmon_build_failed", 1)
+			}
+			e.bin, e.plain = stock, stock
 		}
 		t.Extra("fs_call_log", e.osmon)
+		t.Extra("validation_children_use_stock_build", e.plain == stock)
 
-		leaves, err := clirun.Leaves(e.plain, scratch)
-		if err != nil {
-			t.Broken("leaf discovery: %v", err)
-		}
-		root := clirun.Run(clirun.Spec{Bin: e.plain, Args: []string{"help"}, Dir: scratch, Home: scratch, Tmp: scratch})
-		if !bytes.Contains(root.Stdout, []byte("--force")) {
-			t.Broken("the binary's help does not list a --force flag")
-		}
-		fs := forms()
-		e.coverage(leaves, fs)
+		// leaf discovery (≈ 90 help children) runs beside the cases
+		var leaves []clirun.Leaf
+		var leafErr error
+		var rootHelp clirun.Result
+		var lwg sync.WaitGroup
+		lwg.Add(1)
+		go func() {
+			defer lwg.Done()
+			leaves, leafErr = clirun.Leaves(e.plain, scratch)
+			rootHelp = clirun.Run(clirun.Spec{Bin: e.plain, Args: []string{"help"}, Dir: scratch, Home: scratch, Tmp: scratch})
+		}()
 
+		all := forms()
+		selected := func(form) bool { return true }
 		if re := os.Getenv("C04_ONLY"); re != "" { // development aid: restrict the table
 			rx := regexp.MustCompile(re)
-			var sel []form
-			for _, fm := range fs {
-				if rx.MatchString(fm.name) {
-					sel = append(sel, fm)
-				}
-			}
-			fs = sel
+			selected = func(fm form) bool { return rx.MatchString(fm.name) }
 		}
 		if t.Replay != nil {
 			var rc replayCase
 			_ = json.Unmarshal(t.Replay.Case, &rc)
-			var sel []form
-			for _, fm := range fs {
-				if fm.name == rc.Form {
-					sel = append(sel, fm)
-				}
-			}
-			fs = sel
+			selected = func(fm form) bool { return fm.name == rc.Form }
 		}
 
-		t.Rule("case = (command form, output configuration, variant of the pre-existing output, spelling of the output path); every case is one run of the real binary in a fresh sandbox; all cases are non-trivial (each is judged on exit status, stderr, whole-tree comparison and, with the shadow build, the fs-call log); distinct by that tuple. quick draws ONE path spelling per form from the seed and two of the four (pre-existing kind, flag position) --force combinations, thorough runs all of them")
+		t.Rule("case = (command form, output configuration, variant of the pre-existing output, spelling of the output path); every case is one run of the real binary in a fresh sandbox; all cases are non-trivial (each is judged on exit status, stderr, whole-tree comparison and, with the shadow build, the fs-call log); distinct by that tuple. BOTH tiers drive every form with the output absent, present, present + --force, equal to the input (+ --force), in place, and every directory form with the directory empty, non-empty, non-empty + --force. thorough enumerates the secondary axes (6 kinds of present file, 4 kinds of non-empty directory, 5 path spellings, 4 (kind, --force placement) combinations, missing directory, ./ spelling of the alias) and validates every result with a `pdfcpu validate` child of the stock build; quick draws per form from the seed, balanced over the table: 1 spelling, 2 present kinds (one of garbage|pdf, one of empty|readonly|symlink|dir), 1 --force combination, 2 non-empty-directory kinds, 1 directory --force combination, alias + --force for 1 form in 2, missing directory for 1 in 3, validates every result in-process (api.ValidateFile of the tree under test) and 1 form in 8 also with a validate child")
 		t.Assume("leaf commands are those reachable through `pdfcpu help`; hidden commands (dump) name no output")
 		t.Assume("merge -m append is defined on an existing output (it extends it) and is driven as an in-place form; every other form, including import, is held to the refusal rule of the property text")
 		t.Assume("output = input without --force: any non-zero exit with an unchanged tree counts as the refusal (the message may name the aliasing instead of the overwrite); output = input with --force may either succeed with a valid file or fail leaving the tree unchanged")
 		t.Assume("a missing output directory: success with valid outputs or failure are both accepted (the property text only speaks of non-empty directories)")
 		t.Exhaustive(os.Getenv("C04_ONLY") == "" && t.Replay == nil)
 
-		kinds := nameKinds
-		vk.Parallel(len(fs), func(i int) {
-			fm := fs[i]
-			ks := kinds
-			if t.Quick() {
-				ks = []string{kinds[t.RNGi("namekind/"+fm.name, 0).IntN(len(kinds))]}
-			}
-			for ki, k := range ks {
-				e.runForm(fm, k, ki == 0)
-			}
-		})
+		baselines, rest := plan(t, all, selected)
+		t.Count("cases_planned", int64(len(baselines)+len(rest)))
+		vk.Parallel(len(baselines), func(i int) { e.runCase(baselines[i]) })
+		vk.Parallel(len(rest), func(i int) { e.runCase(rest[i]) })
+
+		lwg.Wait()
+		if leafErr != nil {
+			t.Broken("leaf discovery: %v", leafErr)
+		}
+		if !bytes.Contains(rootHelp.Stdout, []byte("--force")) {
+			t.Broken("the binary's help does not list a --force flag")
+		}
+		e.coverage(leaves, all)
 		if e.osmon && t.Counter("fs_log_mutating_calls_in_successful_runs") == 0 && t.Replay == nil {
 			t.Broken("the fs-call log never showed a mutating call in a successful run: tracer not working")
 		}
@@ -329,8 +360,28 @@ func (e *env) run(b *box, args []string, force string) *outcome {
 	return o
 }
 
-// validatePDF runs `pdfcpu validate` (stock build) on a file.
-func (e *env) validatePDF(b *box, path, upw, opw string) (bool, string) {
+// validateInProc validates a PDF through pkg/api of the tree under test (what `pdfcpu validate` does:
+// relaxed mode, fresh default configuration, the passwords that open the output).
+func (e *env) validateInProc(path, upw, opw string) (ok bool, why string) {
+	defer func() {
+		if r := recover(); r != nil {
+			e.t.Count("pdfcpu_panics", 1)
+			ok, why = false, fmt.Sprintf("validate panicked: %v", r)
+		}
+	}()
+	conf := model.NewDefaultConfiguration()
+	conf.Offline = true
+	conf.ValidationMode = model.ValidationRelaxed
+	conf.UserPW, conf.OwnerPW = upw, opw
+	e.t.Count("validate_inproc", 1)
+	if err := api.ValidateFile(path, conf); err != nil {
+		return false, "validate: " + clirun.Clip([]byte(err.Error()), 200)
+	}
+	return true, ""
+}
+
+// validateChild runs `pdfcpu validate` (e.plain) on a file.
+func (e *env) validateChild(b *box, path, upw, opw string) (bool, string) {
 	args := []string{"--conf", "disable", "validate"}
 	if upw != "" {
 		args = append(args, "--upw", upw)
@@ -358,8 +409,21 @@ func (e *env) validatePDF(b *box, path, upw, opw string) (bool, string) {
 	return true, ""
 }
 
+// validatePDF: quick validates in-process (and with a child where the plan says so), thorough with a child.
+func (e *env) validatePDF(b *box, path, upw, opw string, child bool) (bool, string) {
+	if e.t.Quick() {
+		if ok, why := e.validateInProc(path, upw, opw); !ok {
+			return ok, why
+		}
+	}
+	if child {
+		return e.validateChild(b, path, upw, opw)
+	}
+	return true, ""
+}
+
 // validOutput checks one output file (PDF via the CLI's validate, JSON by decoding).
-func (e *env) validOutput(b *box, fm form, path string) (bool, string) {
+func (e *env) validOutput(b *box, fm form, path string, child bool) (bool, string) {
 	st, err := os.Stat(path)
 	if err != nil {
 		return false, "output missing: " + err.Error()
@@ -380,11 +444,11 @@ func (e *env) validOutput(b *box, fm form, path string) (bool, string) {
 		}
 		return true, ""
 	}
-	return e.validatePDF(b, path, fm.upw, fm.opw)
+	return e.validatePDF(b, path, fm.upw, fm.opw, child)
 }
 
 // validDir checks every regular file under an output directory; n = number of files.
-func (e *env) validDir(b *box, fm form, dir string) (n int, ok bool, why string) {
+func (e *env) validDir(b *box, fm form, dir string, child bool) (n int, ok bool, why string) {
 	ok = true
 	_ = filepath.Walk(dir, func(p string, info os.FileInfo, err error) error {
 		if err != nil || !info.Mode().IsRegular() {
@@ -394,7 +458,7 @@ func (e *env) validDir(b *box, fm form, dir string) (n int, ok bool, why string)
 			return nil
 		}
 		n++
-		if v, w := e.validOutput(b, fm, p); !v && ok {
+		if v, w := e.validOutput(b, fm, p, child); !v && ok {
 			ok, why = false, filepath.Base(p)+": "+w
 		}
 		return nil
@@ -419,107 +483,92 @@ func (e *env) timedOut(o *outcome, fm form, sc string) bool {
 	return false
 }
 
-// ---------------------------------------------------------------- per form
+// ---------------------------------------------------------------- per case
 
-func (e *env) runForm(fm form, nk string, first bool) {
-	if fm.kind == dirOut {
-		e.runDirForm(fm, nk)
+func (e *env) setBase(k kase, ok bool) {
+	e.mu.Lock()
+	e.base[k.fm.name+"/"+k.nk] = ok
+	e.mu.Unlock()
+}
+
+func (e *env) baseOK(k kase) bool {
+	e.mu.Lock()
+	defer e.mu.Unlock()
+	return e.base[k.fm.name+"/"+k.nk]
+}
+
+func (e *env) runCase(k kase) {
+	if strings.HasPrefix(k.sc, "dir-") {
+		e.runDirCase(k)
 		return
 	}
-	if fm.existingIsInput {
-		if first {
-			e.runExistingIsInput(fm)
-		}
-		return
-	}
-	t := e.t
+	t, fm, nk := e.t, k.fm, k.nk
 	base := "C04/" + fm.name + "/" + nk
+	b := e.newBox(fm)
+	defer b.done()
+	out := outName(nk, fm.json, b.sb)
 
-	// ---- output absent: the baseline of this form
-	baselineOK := false
-	{
-		b := e.newBox(fm)
-		out := outName(nk, fm.json, b.sb)
+	switch k.sc {
+	case "absent": // the baseline of this form
 		o := e.run(b, subst(fm.args, fm.in, out, ""), "")
 		t.Eval(base + "/absent")
+		ok := false
 		switch {
 		case e.timedOut(o, fm, "out-absent"):
 		case o.res.Exit != 0:
 			t.Inconclusive("baseline-failed:" + fm.name)
 			fmt.Fprintf(os.Stderr, "C04: baseline of %s failed: exit %d: %s\n", fm.name, o.res.Exit, clirun.Clip(o.res.Stderr, 300))
 		default:
-			if ok, why := e.validOutput(b, fm, b.path(out)); !ok {
+			if v, why := e.validOutput(b, fm, b.path(out), k.child); !v {
 				e.violate(fm, "out-absent", "invalid-output", fmt.Sprintf("%q succeeded with the output absent but %s", o.args, why), rcOf(o, "", nk))
 			} else {
-				baselineOK = true
+				ok = true
 				t.Count("proceeded_ok/out-absent", 1)
 				if len(o.mut) > 0 {
 					t.Count("fs_log_mutating_calls_in_successful_runs", int64(len(o.mut)))
 				}
 			}
 		}
-		b.done()
-	}
-	if first {
-		t.Sample(map[string]any{"form": fm.name, "args": subst(fm.args, fm.in, outName(nk, fm.json, "<sandbox>"), ""), "name_kind": nk, "baseline_ok": baselineOK})
-	}
+		e.setBase(k, ok)
+		if k.first {
+			t.Sample(map[string]any{"form": fm.name, "args": subst(fm.args, fm.in, outName(nk, fm.json, "<sandbox>"), ""), "name_kind": nk, "baseline_ok": ok})
+		}
 
-	// ---- output present, no --force
-	for _, variant := range []string{"garbage", "pdf", "empty", "readonly", "symlink", "dir"} {
-		b := e.newBox(fm)
-		out := outName(nk, fm.json, b.sb)
-		e.plant(b, fm, out, variant, base)
+	case "exists": // output present, no --force
+		e.plant(b, fm, out, k.variant, base)
 		o := e.run(b, subst(fm.args, fm.in, out, ""), "")
-		t.Eval(base + "/exists-" + variant)
+		t.Eval(base + "/exists-" + k.variant)
+		t.Count("present_kind/"+k.variant, 1)
 		if !e.timedOut(o, fm, "out-exists") {
-			e.judgeRefusal(fm, "out-exists", variant, nk, o, out, baselineOK, true)
+			e.judgeRefusal(fm, "out-exists", k.variant, nk, o, out, e.baseOK(k), true)
 		}
-		b.done()
-	}
 
-	// ---- output present + --force
-	for _, variant := range []string{"garbage", "pdf"} {
-		for _, pos := range []string{"first", "last"} {
-			if t.Quick() && (variant == "garbage") != (pos == "first") {
-				continue // quick: garbage/first and pdf/last; thorough: all four
-			}
-			b := e.newBox(fm)
-			out := outName(nk, fm.json, b.sb)
-			planted := e.plant(b, fm, out, variant, base)
-			o := e.run(b, subst(fm.args, fm.in, out, ""), pos)
-			t.Eval(base + "/force-" + variant + "-" + pos)
-			if !e.timedOut(o, fm, "force") && baselineOK {
-				e.judgeProceeds(fm, "force", variant+"/"+pos, nk, o, b, b.path(out), planted)
-			}
-			b.done()
+	case "force": // output present + --force
+		planted := e.plant(b, fm, out, k.variant, base)
+		o := e.run(b, subst(fm.args, fm.in, out, ""), k.pos)
+		t.Eval(base + "/force-" + k.variant + "-" + k.pos)
+		t.Count("force_combo/"+k.variant+"-"+k.pos, 1)
+		if !e.timedOut(o, fm, "force") && e.baseOK(k) {
+			e.judgeProceeds(fm, "force", k.variant+"/"+k.pos, nk, o, b, b.path(out), planted, k.child)
 		}
-	}
 
-	if !first {
-		return
-	}
-	// ---- output = input
-	if fm.in != "" && !fm.noAlias {
-		spell := []string{fm.in, "./" + fm.in}
-		for si, sp := range spell {
-			b := e.newBox(fm)
-			if si == 1 && t.Quick() {
-				b.done()
-				break
-			}
-			o := e.run(b, subst(fm.args, fm.in, sp, ""), "")
-			t.Eval(base + "/alias-" + fmt.Sprint(si))
-			if !e.timedOut(o, fm, "out-is-input") {
-				e.judgeRefusal(fm, "out-is-input", "alias", nk, o, sp, baselineOK, false)
-			}
-			b.done()
+	case "alias": // output = input
+		sp := fm.in
+		if k.spell == 1 {
+			sp = "./" + fm.in
 		}
-		b := e.newBox(fm)
+		o := e.run(b, subst(fm.args, fm.in, sp, ""), "")
+		t.Eval(base + "/alias-" + fmt.Sprint(k.spell))
+		if !e.timedOut(o, fm, "out-is-input") {
+			e.judgeRefusal(fm, "out-is-input", "alias", nk, o, sp, e.baseOK(k), false)
+		}
+
+	case "alias-force":
 		o := e.run(b, subst(fm.args, fm.in, fm.in, ""), "first")
 		t.Eval(base + "/alias-force")
-		if !e.timedOut(o, fm, "out-is-input+force") && baselineOK {
+		if !e.timedOut(o, fm, "out-is-input+force") && e.baseOK(k) {
 			if o.res.Exit == 0 {
-				if ok, why := e.validOutput(b, fm, b.path(fm.in)); !ok {
+				if ok, why := e.validOutput(b, fm, b.path(fm.in), k.child); !ok {
 					e.violate(fm, "out-is-input+force", "invalid-output", fmt.Sprintf("%q exit 0 but %s", o.args, why), rcOf(o, "alias", nk))
 				} else {
 					t.Count("proceeded_ok/out-is-input+force", 1)
@@ -530,17 +579,27 @@ func (e *env) runForm(fm form, nk string, first bool) {
 				t.Count("declined_unchanged/out-is-input+force", 1)
 			}
 		}
-		b.done()
-	}
-	// ---- no output named: in place
-	if fm.inplace != nil {
-		b := e.newBox(fm)
+
+	case "inplace": // no output named
 		o := e.run(b, subst(fm.inplace, fm.in, "", ""), "")
 		t.Eval(base + "/inplace")
-		if !e.timedOut(o, fm, "inplace") && baselineOK {
-			e.judgeProceeds(fm, "inplace", "", nk, o, b, b.path(fm.in), nil)
+		if !e.timedOut(o, fm, "inplace") && e.baseOK(k) {
+			e.judgeProceeds(fm, "inplace", "", nk, o, b, b.path(fm.in), nil, k.child)
 		}
-		b.done()
+
+	case "existing-is-input": // merge -m append: the output must exist and is extended
+		out := "out.pdf"
+		if err := clirun.CopyFile(filepath.Join(e.fx, fm.in), b.path(out), 0o644); err != nil {
+			t.Broken("%v", err)
+		}
+		o := e.run(b, subst(fm.args, fm.in, out, ""), k.pos)
+		t.Eval("C04/" + fm.name + "/existing-is-input/" + k.pos)
+		if !e.timedOut(o, fm, "inplace") {
+			e.judgeProceeds(fm, "inplace", "existing-is-input/"+k.pos, "plain", o, b, b.path(out), nil, k.child)
+		}
+
+	default:
+		t.Broken("unknown case kind %q", k.sc)
 	}
 }
 
@@ -650,12 +709,12 @@ func (e *env) judgeRefusal(fm form, sc, variant, nk string, o *outcome, out stri
 }
 
 // judgeProceeds: --force or in place: exit 0 and the named file holds a valid result.
-func (e *env) judgeProceeds(fm form, sc, variant, nk string, o *outcome, b *box, path string, planted []byte) {
+func (e *env) judgeProceeds(fm form, sc, variant, nk string, o *outcome, b *box, path string, planted []byte, child bool) {
 	if o.res.Exit != 0 {
 		e.violate(fm, sc, "failed", fmt.Sprintf("%q must proceed but exit %d: %s", o.args, o.res.Exit, clirun.Clip(o.res.Stderr, 200)), rcOf(o, variant, nk))
 		return
 	}
-	if ok, why := e.validOutput(b, fm, path); !ok {
+	if ok, why := e.validOutput(b, fm, path, child); !ok {
 		e.violate(fm, sc, "invalid-output", fmt.Sprintf("%q exit 0 but %s", o.args, why), rcOf(o, variant, nk))
 		return
 	}
@@ -671,72 +730,52 @@ func (e *env) judgeProceeds(fm form, sc, variant, nk string, o *outcome, b *box,
 	e.t.Count("proceeded_ok/"+sc, 1)
 }
 
-// runExistingIsInput: merge -m append — the output must exist and is extended, with and without --force.
-func (e *env) runExistingIsInput(fm form) {
-	for _, force := range []string{"", "first"} {
-		b := e.newBox(fm)
-		out := "out.pdf"
-		if err := clirun.CopyFile(filepath.Join(e.fx, fm.in), b.path(out), 0o644); err != nil {
-			e.t.Broken("%v", err)
-		}
-		o := e.run(b, subst(fm.args, fm.in, out, ""), force)
-		e.t.Eval("C04/" + fm.name + "/existing-is-input/" + force)
-		if !e.timedOut(o, fm, "inplace") {
-			e.judgeProceeds(fm, "inplace", "existing-is-input/"+force, "plain", o, b, b.path(out), nil)
-		}
-		b.done()
-	}
-}
-
 // ---------------------------------------------------------------- directory outputs
 
-func (e *env) runDirForm(fm form, nk string) {
-	t := e.t
+func (e *env) runDirCase(k kase) {
+	t, fm, nk := e.t, k.fm, k.nk
 	base := "C04/" + fm.name + "/" + nk
-	argsFor := func(b *box) (string, []string) {
-		dir := dirName(nk, b.sb)
-		return dir, subst(fm.args, fm.in, "", dir)
-	}
-	// ---- empty directory: baseline
-	baselineOK := false
-	{
-		b := e.newBox(fm)
-		dir, args := argsFor(b)
-		_ = os.MkdirAll(b.path(dir), 0o755)
+	b := e.newBox(fm)
+	defer b.done()
+	dir := dirName(nk, b.sb)
+	args := subst(fm.args, fm.in, "", dir)
+	dp := b.path(dir)
+
+	switch k.sc {
+	case "dir-empty": // baseline
+		_ = os.MkdirAll(dp, 0o755)
 		o := e.run(b, args, "")
 		t.Eval(base + "/dir-empty")
+		ok := false
 		switch {
 		case e.timedOut(o, fm, "dir-empty"):
 		case o.res.Exit != 0:
 			t.Inconclusive("baseline-failed:" + fm.name)
 			fmt.Fprintf(os.Stderr, "C04: baseline of %s failed: exit %d: %s\n", fm.name, o.res.Exit, clirun.Clip(o.res.Stderr, 300))
 		default:
-			n, ok, why := e.validDir(b, fm, b.path(dir))
+			n, v, why := e.validDir(b, fm, dp, k.child)
 			switch {
-			case !ok:
+			case !v:
 				e.violate(fm, "dir-empty", "invalid-output", fmt.Sprintf("%q exit 0 but %s", o.args, why), rcOf(o, "", nk))
 			case n == 0:
 				t.Inconclusive("baseline-wrote-nothing:" + fm.name)
 			default:
-				baselineOK = true
+				ok = true
 				t.Count("proceeded_ok/dir-empty", 1)
 				t.Count("fs_log_mutating_calls_in_successful_runs", int64(len(o.mut)))
 			}
 		}
-		if nk == "plain" || t.Quick() {
-			t.Sample(map[string]any{"form": fm.name, "args": o.args, "baseline_ok": baselineOK})
+		e.setBase(k, ok)
+		if k.first {
+			t.Sample(map[string]any{"form": fm.name, "args": o.args, "baseline_ok": ok})
 		}
-		b.done()
-	}
-	// ---- missing directory
-	{
-		b := e.newBox(fm)
-		dir, args := argsFor(b)
+
+	case "dir-missing":
 		o := e.run(b, args, "")
 		t.Eval(base + "/dir-missing")
 		if !e.timedOut(o, fm, "dir-missing") {
 			if o.res.Exit == 0 {
-				if _, ok, why := e.validDir(b, fm, b.path(dir)); !ok {
+				if _, ok, why := e.validDir(b, fm, dp, k.child); !ok {
 					e.violate(fm, "dir-missing", "invalid-output", fmt.Sprintf("%q exit 0 but %s", o.args, why), rcOf(o, "", nk))
 				} else {
 					t.Count("proceeded_ok/dir-missing", 1)
@@ -745,61 +784,50 @@ func (e *env) runDirForm(fm form, nk string) {
 				t.Count("failed/dir-missing", 1)
 			}
 		}
-		b.done()
-	}
-	// ---- non-empty directory, with and without --force
-	for _, variant := range []string{"file", "hidden", "subdir", "rerun"} {
-		for _, force := range []string{"", "first", "last"} {
-			if force != "" && (variant == "hidden" || variant == "subdir") {
-				continue
+
+	case "dir-nonempty", "dir-force":
+		_ = os.MkdirAll(dp, 0o755)
+		switch k.variant {
+		case "file":
+			_ = os.WriteFile(filepath.Join(dp, "pre-existing.txt"), []byte("keep me\n"), 0o644)
+		case "hidden":
+			_ = os.WriteFile(filepath.Join(dp, ".pre-existing"), []byte("keep me\n"), 0o644)
+		case "subdir":
+			_ = os.MkdirAll(filepath.Join(dp, "pre-existing.d"), 0o755)
+		case "rerun":
+			pre := e.run(b, args, "")
+			if pre.res.Exit != 0 || pre.res.TimedOut {
+				t.Count("rerun_first_run_failed", 1)
+				return
 			}
-			if force == "last" && variant == "rerun" {
-				continue
-			}
-			if t.Quick() && force == "first" && variant == "file" {
-				continue // quick: file/last and rerun/first
-			}
-			b := e.newBox(fm)
-			dir, args := argsFor(b)
-			dp := b.path(dir)
-			_ = os.MkdirAll(dp, 0o755)
-			switch variant {
-			case "file":
-				_ = os.WriteFile(filepath.Join(dp, "pre-existing.txt"), []byte("keep me\n"), 0o644)
-			case "hidden":
-				_ = os.WriteFile(filepath.Join(dp, ".pre-existing"), []byte("keep me\n"), 0o644)
-			case "subdir":
-				_ = os.MkdirAll(filepath.Join(dp, "pre-existing.d"), 0o755)
-			case "rerun":
-				pre := e.run(b, args, "")
-				if pre.res.Exit != 0 || pre.res.TimedOut {
-					b.done()
-					continue
-				}
-			}
-			o := e.run(b, args, force)
-			if force == "" {
-				t.Eval(base + "/dir-nonempty-" + variant)
-				if !e.timedOut(o, fm, "dir-nonempty") {
-					e.judgeRefusal(fm, "dir-nonempty", variant, nk, o, dir, baselineOK, true)
-				}
-			} else {
-				t.Eval(base + "/dir-nonempty-" + variant + "-force-" + force)
-				if !e.timedOut(o, fm, "dir-nonempty+force") && baselineOK {
-					n, ok, why := e.validDir(b, fm, dp)
-					switch {
-					case o.res.Exit != 0:
-						e.violate(fm, "dir-nonempty+force", "failed", fmt.Sprintf("%q must proceed but exit %d: %s", o.args, o.res.Exit, clirun.Clip(o.res.Stderr, 200)), rcOf(o, variant, nk))
-					case !ok:
-						e.violate(fm, "dir-nonempty+force", "invalid-output", fmt.Sprintf("%q exit 0 but %s", o.args, why), rcOf(o, variant, nk))
-					case n == 0 || len(o.changes) == 0:
-						e.violate(fm, "dir-nonempty+force", "nothing-written", fmt.Sprintf("%q exit 0 but nothing was written", o.args), rcOf(o, variant, nk))
-					default:
-						t.Count("proceeded_ok/dir-nonempty+force", 1)
-					}
-				}
-			}
-			b.done()
+		default:
+			t.Broken("unknown directory variant %q", k.variant)
 		}
+		o := e.run(b, args, k.pos)
+		if k.sc == "dir-nonempty" {
+			t.Eval(base + "/dir-nonempty-" + k.variant)
+			t.Count("nonempty_dir_kind/"+k.variant, 1)
+			if !e.timedOut(o, fm, "dir-nonempty") {
+				e.judgeRefusal(fm, "dir-nonempty", k.variant, nk, o, dir, e.baseOK(k), true)
+			}
+			return
+		}
+		t.Eval(base + "/dir-nonempty-" + k.variant + "-force-" + k.pos)
+		if !e.timedOut(o, fm, "dir-nonempty+force") && e.baseOK(k) {
+			n, ok, why := e.validDir(b, fm, dp, k.child)
+			switch {
+			case o.res.Exit != 0:
+				e.violate(fm, "dir-nonempty+force", "failed", fmt.Sprintf("%q must proceed but exit %d: %s", o.args, o.res.Exit, clirun.Clip(o.res.Stderr, 200)), rcOf(o, k.variant, nk))
+			case !ok:
+				e.violate(fm, "dir-nonempty+force", "invalid-output", fmt.Sprintf("%q exit 0 but %s", o.args, why), rcOf(o, k.variant, nk))
+			case n == 0 || len(o.changes) == 0:
+				e.violate(fm, "dir-nonempty+force", "nothing-written", fmt.Sprintf("%q exit 0 but nothing was written", o.args), rcOf(o, k.variant, nk))
+			default:
+				t.Count("proceeded_ok/dir-nonempty+force", 1)
+			}
+		}
+
+	default:
+		t.Broken("unknown directory case kind %q", k.sc)
 	}
 }
